@@ -9,6 +9,7 @@ import (
 	"unsafe"
 
 	"github.com/basecomplextech/baselibrary/bin"
+	"github.com/basecomplextech/spec/internal/vpool"
 )
 
 // VerifTracer receives one call per instrumented point (build tag "verif" only).
@@ -87,3 +88,55 @@ func (c *client) vstate(event string) {
 
 // VerifReconnectTimeout exposes the back-off function of the auto-connect client.
 func VerifReconnectTimeout(attempt int) time.Duration { return reconnectTimeout(attempt) }
+
+// vpoolGet reports a channel state taken from its pool with the attributes which are not fresh.
+func vpoolGet(s *channelState) {
+	var m int64
+	if s.id != (bin.Bin128{}) {
+		m |= 1
+	}
+	if s.ctx != nil {
+		m |= 2
+	}
+	if s.conn != nil {
+		m |= 4
+	}
+	if s.client {
+		m |= 8
+	}
+	if s.initWindow != 0 {
+		m |= 16
+	}
+	if s.opened.Load() {
+		m |= 32
+	}
+	if s.closed.Load() {
+		m |= 64
+	}
+	if s.closedUser.Load() {
+		m |= 128
+	}
+	if s.sendWindow.Load() != 0 {
+		m |= 256
+	}
+	if len(s.sendWindowWait) != 0 {
+		m |= 512
+	}
+	if s.recvQueue.Closed() {
+		m |= 1024
+	}
+	if _, ok, _ := s.recvQueue.Read(); ok {
+		m |= 2048
+	}
+	if s.recvBytes.Load() != 0 {
+		m |= 4096
+	}
+	if s.sender != (channelSender{}) {
+		m |= 8192
+	}
+	vpool.Emit("mpx.channelState", unsafe.Pointer(s), false, m)
+}
+
+func vpoolPut(s *channelState) {
+	vpool.Emit("mpx.channelState", unsafe.Pointer(s), true, 0)
+}
